@@ -5,6 +5,7 @@ import (
 	"fmt"
 	"testing"
 
+	"github.com/mark3labs/flyt"
 	"pgregory.net/rapid"
 )
 
@@ -186,6 +187,85 @@ func checkC04Case(t *testing.T, c C04Case) Verdict {
 	return v
 }
 
+// ---- batch nodes: prep/post failures are transparent too (item failures go to slots by design)
+
+type C04Batch struct {
+	B      BatchSc `json:"b"`
+	InFlow bool    `json:"in_flow"`
+}
+
+func checkC04Batch(t *testing.T, c C04Batch) Verdict {
+	sc := c.B
+	var v Verdict
+	f := Bubble(t, func() {
+		x := newBatchExec(&sc)
+		x.sc.Gated = false
+		store := flyt.NewSharedStore()
+		var err error
+		after := &markNode{}
+		if c.InFlow {
+			flow := flyt.NewFlow(x.node)
+			flow.Connect(x.node, flyt.DefaultAction, after)
+			flow.Connect(x.node, "done", after)
+			err = flow.Run(context.Background(), store)
+		} else {
+			_, err = flyt.Run(context.Background(), x.node, store)
+		}
+		evs := x.snapshot()
+		var prepErr, postErr error
+		for _, e := range evs {
+			if e.Kind == "prep" {
+				prepErr = e.RetErr
+			}
+			if e.Kind == "post" {
+				postErr = e.RetErr
+			}
+		}
+		want := prepErr
+		if want == nil {
+			want = postErr
+		}
+		switch {
+		case want == nil && err != nil:
+			v = bad("C04:batch-spurious-error", "batch prep and post succeeded (item errors belong in result slots) but the run returned %v", err)
+		case want != nil && err == nil:
+			v = bad("C04:batch-swallowed", "batch %s failed with %q but the run returned nil", map[bool]string{true: "prep", false: "post"}[prepErr != nil], want)
+		case want != nil:
+			if m := errMatches(err, want); m != "" {
+				v = bad("C04:batch-identity", "batch callback failed with %q, run returned %q: %s", want, err, m)
+				return
+			}
+			if prepErr != nil && len(evs) != 1 {
+				v = bad("C04:batch-fail-stop", "callbacks after the failed batch prep: %v", bevStrings(evs))
+				return
+			}
+			if after.ran != 0 {
+				v = bad("C04:batch-fail-stop", "the flow went on to the next node after the batch node failed")
+				return
+			}
+			v = ok(true, "batch", map[bool]string{true: "in-flow", false: "direct"}[c.InFlow], map[bool]string{true: "prep-fails", false: "post-fails"}[prepErr != nil])
+		default:
+			v = ok(false, "batch", "no-failure")
+		}
+	})
+	if f != "" {
+		return bad("C04:bubble", "%s", f)
+	}
+	return v
+}
+
+func genC04Batch(rt *rapid.T) C04Batch {
+	g := batchGen{MinN: 0, MaxN: 6, MaxC: 3, Modes: []int{0, 1, 2}, MaxBudget: 2, PFail: 300, Fb: true, Gated: 0, PPrepErr: 330, PPostErr: 500}
+	b := g.gen(rt)
+	if b.PrepErr != 0 {
+		b.PrepErr = errFlavors[uniform(rt, len(errFlavors), "pf")]
+	}
+	if b.PostErr != 0 {
+		b.PostErr = errFlavors[uniform(rt, len(errFlavors), "qf")]
+	}
+	return C04Batch{B: b, InFlow: rapid.Bool().Draw(rt, "inflow")}
+}
+
 func TestC04(t *testing.T) {
 	r := newRun(t, "C04")
 	defer r.finish()
@@ -209,9 +289,11 @@ func TestC04(t *testing.T) {
 	r.note("fault-enum: every (leaf visit x phase x attempt) event of each failure-free reference run injected in 4 error flavours, plus 'all attempts fail': %d injected runs in this shard", positions)
 	g := wfGen{MaxLeaves: 5, MaxFlows: 4, Actions: []string{"a", "b", ""}, PErr: 60, PExecErr: 400, MaxN: 4, Waits: true, MaxVisits: 3, FuelMax: 10, MaxRuns: 2}
 	rapidPart(r, "rand-multi", r.pick(3000, 40000), g.gen, checkC04)
+	rapidPart(r, "batch-prep-post", r.pick(2000, 30000), genC04Batch, checkC04Batch)
 }
 
 func init() {
 	registerReplay("C04", checkC04)
 	registerReplaySub("C04", "fault-enum", checkC04Case)
+	registerReplaySub("C04", "batch-prep-post", checkC04Batch)
 }
